@@ -165,6 +165,14 @@ def _build_func_identifier(func):
 # source code to check if a function definition has changed
 _FUNCTION_HASHES = weakref.WeakKeyDictionary()
 
+# Hash of the function whose code was last written by this process under a
+# given function identifier of a given store. Several live functions can
+# share an identifier (a function redefined under the same name while the
+# older definition is still referenced, name collisions): the in-memory
+# shortcut of a function is only valid as long as no other function has
+# taken over its identifier.
+_FUNCTION_ID_HASHES = dict()
+
 
 ###############################################################################
 # class `MemorizedResult`
@@ -662,6 +670,10 @@ class MemorizedFunc(Logger):
         func_code_h = hash(getattr(self.func, "__code__", None))
         return id(self.func), hash(self.func), func_code_h
 
+    def _func_id_key(self):
+        """Key of the function identifier in the online cache"""
+        return getattr(self.store_backend, "location", None), self.func_id
+
     def _write_func_code(self, func_code, first_line):
         """Write the function code and the filename to a file."""
         # We store the first line because the filename and the function
@@ -682,6 +694,7 @@ class MemorizedFunc(Logger):
             func_hash = self._hash_func()
             try:
                 _FUNCTION_HASHES[self.func] = func_hash
+                _FUNCTION_ID_HASHES[self._func_id_key()] = func_hash
             except TypeError:
                 # Some callable are not hashable
                 pass
@@ -701,7 +714,9 @@ class MemorizedFunc(Logger):
                 # hash. This is more likely to falsely change than have hash
                 # collisions, thus we are on the safe side.
                 func_hash = self._hash_func()
-                if func_hash == _FUNCTION_HASHES[self.func]:
+                if func_hash == _FUNCTION_HASHES[
+                    self.func
+                ] and func_hash == _FUNCTION_ID_HASHES.get(self._func_id_key()):
                     return True
         except TypeError:
             # Some callables are not hashable
@@ -1141,6 +1156,7 @@ class Memory(Logger):
             # table, results cached after this clear will be have cache miss
             # as the function code is not re-written.
             _FUNCTION_HASHES.clear()
+            _FUNCTION_ID_HASHES.clear()
 
     def reduce_size(self, bytes_limit=None, items_limit=None, age_limit=None):
         """Remove cache elements to make the cache fit its limits.
